@@ -1,9 +1,9 @@
 #!/bin/bash
-# usage: keep_seed.sh PROP "tests dirs"
+# usage: keep_seed.sh PROP "tests dirs" [ROUND]      (ROUND 1: /tmp/wt-PROP -> seeded/PROP-1; ROUND n: /tmp/wtn-PROP -> seeded/PROP-n)
 # Verifies an independent agent's seeded change left in /tmp/wt-PROP (patch_PROP.diff + demo_PROP.py):
 # the demo must fail with the change and pass without it; the named test directories must pass with it.
 # Stores patch.diff / demo.py / confirm.json under /verif/seeded/PROP-1 and removes the worktree.
-p=$1; tests=$2; wt=/tmp/wt-$p; d=/verif/seeded/$p-1
+p=$1; tests=$2; r=${3:-1}; if [ "$r" = 1 ]; then wt=/tmp/wt-$p; else wt=/tmp/wt$r-$p; fi; d=/verif/seeded/$p-$r
 mkdir -p $d; cp $wt/patch_$p.diff $d/patch.diff; cp $wt/demo_$p.py $d/demo.py
 cd $wt || exit 1
 git diff -- kopf > /tmp/keep_$p.diff
